@@ -46,7 +46,36 @@ const LABELS: [&str; 24] = [
 
 fn send_over(segs: Vec<Seg>, default_cs: Option<&'static Encoding>) -> Result<attohttpc::Response, String> {
     let _log = install_script(segs);
-    let r = std::panic::catch_unwind(std::panic::AssertUnwindSafe(|| attohttpc::get("http://verif.test/t").allow_compression(false).follow_redirects(false).default_charset(default_cs).send()));
+    // the configured default reaches the request in one of several ways, in rotation: set on the request, on its
+    // session, or set to something else first and then to `default_cs` — `None` included: the last value set is
+    // the one in force (seed C18-seed8: a `None` that does not clear an earlier `Some`)
+    static WAY: std::sync::atomic::AtomicUsize = std::sync::atomic::AtomicUsize::new(0);
+    let way = WAY.fetch_add(1, std::sync::atomic::Ordering::Relaxed) % 6;
+    let other: Option<&'static Encoding> = Some(if default_cs == Some(encoding_rs::KOI8_R) { encoding_rs::SHIFT_JIS } else { encoding_rs::KOI8_R });
+    let url = "http://verif.test/t";
+    let r = std::panic::catch_unwind(std::panic::AssertUnwindSafe(|| {
+        let rb = match way {
+            0 | 1 => attohttpc::get(url).default_charset(default_cs),
+            2 => {
+                let mut s = attohttpc::Session::new();
+                s.default_charset(default_cs);
+                s.get(url)
+            }
+            3 => {
+                let mut s = attohttpc::Session::new();
+                s.default_charset(other);
+                s.default_charset(default_cs);
+                s.get(url)
+            }
+            4 => {
+                let mut s = attohttpc::Session::new();
+                s.default_charset(other);
+                s.get(url).default_charset(default_cs)
+            }
+            _ => attohttpc::get(url).default_charset(other).default_charset(default_cs),
+        };
+        rb.allow_compression(false).follow_redirects(false).send()
+    }));
     attohttpc::verif_hooks::clear_dial_factory();
     match r {
         Err(_) => Err("panic".into()),
